@@ -242,7 +242,7 @@ Inductive geom :=
 | GDiscrete (n : nat)
 | GCont2D (n1 n2 : nat)
 | GImage (r c : nat) (o : order) (visual : bool)     (* Image2D, _DefaultGeometry2D (order C) *)
-| GMapped (g : geom) (ma mb : Qc) (has_imap : bool)  (* map x = ma*x+mb elementwise, imap y = (y-mb)/ma *)
+| GMapped (g : geom) (fm : Qc -> Qc) (fi : option (Qc -> Qc))   (* MappedGeometry: ANY elementwise map, optional imap *)
 | GKL (N : nat) (nm : option nat) (coefs : list Qc) (tau : Qc) (dstM idstM : list (list Qc))
 | GStep (N : nat) (idx : list (list nat)) (p : proj).
 
@@ -253,7 +253,7 @@ Fixpoint g_par2fun (g : geom) (a : arr Qc) : option (arr Qc) :=
   | GCont1D _ | GDiscrete _ => Some a
   | GCont2D n1 n2 => cont2d_par2fun 0%Qc n1 n2 a
   | GImage r c o v => image_par2fun 0%Qc r c o v a
-  | GMapped g' ma mb _ => option_map (arr_map (fun x => ma * x + mb)%Qc) (g_par2fun g' a)
+  | GMapped g' fm _ => option_map (arr_map fm) (g_par2fun g' a)
   | GKL N nm coefs tau _ idstM => kl_par2fun (qmatvec idstM) N (kl_modes N nm) coefs tau a
   | GStep N idx _ => step_par2fun N idx a
   end.
@@ -263,7 +263,7 @@ Fixpoint g_fun2par (g : geom) (a : arr Qc) : option (arr Qc) :=
   | GCont1D _ | GDiscrete _ => Some a
   | GCont2D n1 n2 => cont2d_fun2par 0%Qc n1 n2 a
   | GImage _ _ o v => image_fun2par 0%Qc o v a
-  | GMapped g' ma mb has => if has then g_fun2par g' (arr_map (fun y => (y - mb) / ma)%Qc a) else None
+  | GMapped g' _ fi => match fi with Some f => g_fun2par g' (arr_map f a) | None => None end
   | GKL N nm coefs tau dstM _ => kl_fun2par (qmatvec dstM) N (kl_modes N nm) coefs tau a
   | GStep N idx p =>                  (* NaN results are handled by step_fun2par; here they are refused *)
       obind (step_fun2par N idx p a) (fun r => option_map (mkArr (shp r)) (all_some (dat r)))
@@ -274,7 +274,7 @@ Fixpoint g_par_shape (g : geom) : list nat :=
   | GCont1D n | GDiscrete n => [n]
   | GCont2D n1 n2 => [(n1 * n2)%nat]
   | GImage r c _ _ => [(r * c)%nat]
-  | GMapped g' _ _ _ => g_par_shape g'
+  | GMapped g' _ _ => g_par_shape g'
   | GKL N nm _ _ _ _ => [kl_modes N nm]
   | GStep _ idx _ => [length idx]
   end.
@@ -287,7 +287,7 @@ Definition g_fun_shape (g : geom) : option (list nat) :=
   | GCont1D n | GDiscrete n => Some [n]
   | GCont2D n1 n2 => Some [n1; n2]
   | GImage r c _ v => Some (if v then [(r * c)%nat] else [r; c])
-  | GMapped _ _ _ _ => option_map shp (g_par2fun g (ones [prodn (g_par_shape g)]))
+  | GMapped _ _ _ => option_map shp (g_par2fun g (ones [prodn (g_par_shape g)]))
   | GKL N _ _ _ _ _ => Some [N]
   | GStep N _ _ => Some [N]
   end.
@@ -298,14 +298,14 @@ Fixpoint g_fun2vec (g : geom) (a : arr Qc) : option (arr Qc) :=
   match g with
   | GCont2D _ _ => None
   | GImage _ _ o v => image_fun2par 0%Qc o v a
-  | GMapped g' _ _ _ => g_fun2vec g' a
+  | GMapped g' _ _ => g_fun2vec g' a
   | _ => Some a
   end.
 Fixpoint g_vec2fun (g : geom) (a : arr Qc) : option (arr Qc) :=
   match g with
   | GCont2D _ _ => None
   | GImage r c o v => image_par2fun 0%Qc r c o v a
-  | GMapped g' _ _ _ => g_vec2fun g' a
+  | GMapped g' _ _ => g_vec2fun g' a
   | _ => Some a
   end.
 
